@@ -197,11 +197,21 @@ func vtC13WriteSelector(r *rand.Rand, out []int64, podSide bool) []int64 {
 	return append(out, 0, 0, 0)
 }
 
-func vtC13GenProfile(r *rand.Rand, name int, tier string) []int64 {
+// clean: a profile that certainly matches and applies (no selectors, no probability, no
+// skip-update-resources), so that the translation is reached.
+func vtC13GenProfile(r *rand.Rand, name int, tier string, clean bool) []int64 {
 	out := []int64{int64(name)}
-	out = vtC13WriteSelector(r, out, false)
-	out = vtC13WriteSelector(r, out, true)
-	switch r.Intn(10) {
+	if clean {
+		out = append(out, 0, 0, 0, 0, 0, 0)
+	} else {
+		out = vtC13WriteSelector(r, out, false)
+		out = vtC13WriteSelector(r, out, true)
+	}
+	probKind := r.Intn(10)
+	if clean {
+		probKind = 9
+	}
+	switch probKind {
 	case 0:
 		out = append(out, 1, []int64{0, 100, 50, 30, 99, 101}[r.Intn(6)])
 	case 1:
@@ -215,7 +225,7 @@ func vtC13GenProfile(r *rand.Rand, name int, tier string) []int64 {
 	default:
 		out = append(out, 0, 0)
 	}
-	out = append(out, vtB(r.Intn(12) == 0)) // skip-update-resources
+	out = append(out, vtB(!clean && r.Intn(12) == 0)) // skip-update-resources
 	// labels
 	type lab struct {
 		k int64
@@ -263,7 +273,11 @@ func vtC13GenProfile(r *rand.Rand, name int, tier string) []int64 {
 	}
 	out = append(out, vtC13EncStr(q)...)
 	// priorityClassName
-	switch r.Intn(30) {
+	pcKind := r.Intn(30)
+	if clean && pcKind == 0 {
+		pcKind = 29
+	}
+	switch pcKind {
 	case 0:
 		out = append(out, 1, 0)
 	case 1, 2, 3, 4, 5, 6, 7, 8, 9:
@@ -287,7 +301,7 @@ func vtC13GenProfile(r *rand.Rand, name int, tier string) []int64 {
 }
 
 func vtC13mGen(r *rand.Rand, i int) (string, []int64) {
-	style := []string{"batch", "batch", "mid", "prod", "default-be", "random", "no-profile"}[r.Intn(7)]
+	style := []string{"batch", "batch", "batch", "batch", "mid", "mid", "mid", "prod", "prod", "default-be", "default-be", "random", "random", "no-profile"}[r.Intn(14)]
 	// env
 	in := []int64{102}
 	if r.Intn(6) == 0 {
@@ -316,7 +330,7 @@ func vtC13mGen(r *rand.Rand, i int) (string, []int64) {
 		if r.Intn(3) == 0 {
 			prioPresent, prio = true, int64(extension.PriorityBatchValueMin)+r.Int63n(1000)
 		}
-		shape = []int{0, 0, 0, 1, 3}[r.Intn(5)]
+		shape = []int{0, 0, 0, 0, 0, 1, 3}[r.Intn(7)]
 	case "mid":
 		tier = string(extension.PriorityMid)
 		if r.Intn(2) == 0 {
@@ -325,7 +339,7 @@ func vtC13mGen(r *rand.Rand, i int) (string, []int64) {
 		if r.Intn(3) == 0 {
 			prioPresent, prio = true, int64(extension.PriorityMidValueMin)+r.Int63n(1000)
 		}
-		shape = []int{0, 0, 0, 2, 3}[r.Intn(5)]
+		shape = []int{0, 0, 0, 0, 0, 2, 3}[r.Intn(7)]
 	case "prod":
 		if r.Intn(2) == 0 {
 			qos = vtC13Pick(r, []string{string(extension.QoSLS), string(extension.QoSLSR), string(extension.QoSLSE)})
@@ -334,7 +348,7 @@ func vtC13mGen(r *rand.Rand, i int) (string, []int64) {
 		shape = []int{0, 4, 3}[r.Intn(3)]
 	case "default-be": // no identity at all: the class comes from the QoS label or from kube QoS
 		prioPresent = false
-		if r.Intn(2) == 0 {
+		if r.Intn(4) != 0 {
 			qos = string(extension.QoSBE)
 		}
 		shape = []int{0, 1, 3, 0}[r.Intn(4)]
@@ -354,10 +368,10 @@ func vtC13mGen(r *rand.Rand, i int) (string, []int64) {
 	names := r.Perm(6)
 	in = append(in, int64(nProf))
 	for j := 0; j < nProf; j++ {
-		in = append(in, vtC13GenProfile(r, names[j], tier)...)
+		in = append(in, vtC13GenProfile(r, names[j], tier, tier != "" && r.Intn(3) != 0)...)
 	}
 	// make sure the tier styles usually end up in their tier: give the pod itself the identity
-	if tier != "" && r.Intn(4) != 0 {
+	if tier != "" && r.Intn(8) != 0 {
 		if r.Intn(2) == 0 {
 			class = tier
 		} else if tier == string(extension.PriorityBatch) {
